@@ -192,6 +192,7 @@ func (s *simWallet) CreateOpeningTransaction(p *swap.OpeningParams) (string, str
 		return "", "", "", 0, 0, err
 	}
 	tx.Owner = s.n.name
+	tx.Hash = p.ClaimPaymentHash
 	s.c().AddTx(tx)
 	s.w.Emit("open", Ev{"n": s.n.name, "tx": clip(tx.ID, 12), "seq": tx.Seq, "vout": 0, "amt": p.Amount, "csv": p.CSV, "hash": clip(p.ClaimPaymentHash, 12), "blind": bk != ""})
 	s.w.after(s.n, "wallet.open")
